@@ -122,7 +122,8 @@ def cases(draw):
         bad = draw(st.integers(0, len(trace) - 1))
     return {'sorts': sorts, 'hooked': hooked, 'syms': {k: list(v) for k, v in syms.items()}, 'use_inj': use_inj, 'rules': rules, 'order': order,
             'init': init, 'trace': trace, 'bad': bad, 'via_hints': draw(st.booleans()),
-            'bad_mode': draw(st.sampled_from(['wrong', 'omit'])), 'bad_pick': draw(st.integers(0, 3))}
+            'bad_mode': draw(st.sampled_from(['wrong', 'omit'])), 'bad_pick': draw(st.integers(0, 3)),
+            'noise': draw(st.lists(st.integers(0, 5), max_size=8))}
 
 
 def subst(t, sigma):
@@ -229,7 +230,7 @@ def body(c, stats: Stats):
         expected_claims.append(rewrites_ref(r['sort'], to_ref(subst(r['lhs'], st_['sigma']), {}), to_ref(subst(r['rhs'], st_['sigma']), {})))
     nvars = [len(tvars(c['rules'][s['rule']]['lhs']) + tvars(c['rules'][s['rule']]['rhs'])) for s in c['trace']]
     nt = len(c['trace']) >= 2 and any(nvars)
-    cls = ['trace-len-%d' % min(len(c['trace']), 6), 'via-hints' if c['via_hints'] else 'via-rewrite_event'] + (['mismatching', 'mismatching-' + c.get('bad_mode', 'wrong')] if c['bad'] is not None else ['matching']) \
+    cls = ['trace-len-%d' % min(len(c['trace']), 6), 'via-hints' if c['via_hints'] else 'via-rewrite_event'] + (['hints-with-noise-events'] if c['via_hints'] and c['bad'] is None and any(c.get('noise', [])) else []) + (['mismatching', 'mismatching-' + c.get('bad_mode', 'wrong')] if c['bad'] is not None else ['matching']) \
         + (['rule-with-vars'] if any(nvars) else []) + (['inj'] if c['use_inj'] else []) + (['repeated-var'] if any(_repeated(c['rules'][s['rule']]['lhs']) for s in c['trace']) else [])
     stats.case(repr(c), nt or (c['bad'] is not None and len(c['trace']) >= 1), cls,
                {'rules': [[_show(r['lhs']), _show(r['rhs'])] for r in c['rules']][:4], 'init': _show(c['init']), 'trace': [[s['rule'], {k: _show(v) for k, v in s['sigma'].items()}] for s in c['trace']], 'bad_step': c['bad']})
@@ -249,10 +250,29 @@ def body(c, stats: Stats):
             raise Violation('instantiating the converted rule gives %s, converting the substituted rule gives %s, expected %s' % (R.show(inst), R.show(direct), R.show(want)), c, 'commute')
     if c['bad'] is None and c['via_hints']:
         # (a) through get_proof_hints + from_proof_hints
+        from proof_generation.llvm_proof_hint import LLVMFunctionEvent, LLVMHookEvent, LLVMSideCondEvent
+
         events = []
+        noise = list(c.get('noise', []))
+        const = to_kore(['app', sorted(n for n in c['syms'] if c['syms'][n][0] == 0)[0], [], []], 'S0')
+
+        def add_noise():
+            # events that are not rule applications (side-condition checks, function and hook events, their result terms):
+            # they describe no rewrite step and must not change the generated module
+            k = noise.pop(0) if noise else 0
+            if k == 1: events.append(LLVMFunctionEvent('Lblf', '0:1', ()))
+            elif k == 2: events.append(LLVMHookEvent('INT.add', '0', (), const))
+            elif k in (3, 4) and c['trace']:
+                st0 = c['trace'][k % len(c['trace'])]
+                events.append(LLVMSideCondEvent(ordinal_of[st0['rule']], tuple((kk, to_kore(v, 'S0')) for kk, v in st0['sigma'].items())))
+                if k == 4: events.append(const)      # the side condition's result term
+            elif k == 5: events.extend([LLVMFunctionEvent('Lblg', '1', (const,)), const])
+
         for i, st_ in enumerate(c['trace']):
+            add_noise()
             events.append(LLVMRuleEvent(ordinal_of[st_['rule']], tuple((k, to_kore(v, 'S0')) for k, v in st_['sigma'].items())))
             events.append(to_kore(configs[i + 1], 'S0'))
+            add_noise()
         tr = LLVMRewriteTrace((), to_kore(c['init'], 'S0'), tuple(events))
         try:
             pe = ExecutionProofExp.from_proof_hints(get_proof_hints(tr, sem), sem)
